@@ -446,6 +446,10 @@ class CompositeFrontend(ConstrainedFrontend):
 
             log.debug("... simplifying child solver %r", s)
             s.simplify()
+            if any(c.is_false() for c in s.constraints):
+                # a constraint without variables belongs to none of the parts the child is split into below; as in
+                # _add, what it says is remembered here (the next simplify() would otherwise forget it)
+                self._unsat = True
             results = self._split_child(s)
             for ns in results:
                 if isinstance(ns, SimplifySkipperMixin):
